@@ -1,2 +1,138 @@
-import Moclo.Model.Entity
-/-! placeholder for C11 (theorems follow) -/
+import Moclo.Props.C01
+import Moclo.Tables.Kits
+/-!
+# C11 — products of one level are valid modules of the next level
+
+Model: the vector structures of the kits (`Generated/Kits.lean`, live `structure()`), `nextLevelOK` (a
+decidable layout property of a vector structure relative to the next level's cutter), the generic module
+structure of the next level, `C01.module_canonical`.
+
+* every bundled vector type that embeds the next level's sites (CIDAR entry / cassette / device, EcoFlex
+  cassette / device, MoClo entry / cassette vectors) has the next-level layout for the cutter of the kit's
+  next-level module class, and that class is matched with the generic module structure (kernel-checked on the
+  regenerated table);
+* for **any** vector instantiating such a structure, the part of the plasmid the vector keeps around the
+  insertion point reads `S·X·OV … OV'·Y·S'` with `S` the next-level site, `S'` its reverse complement, `X`, `Y`
+  spacers of the next level's offset and `OV`, `OV'` either empty (the vector's own overhangs double as the
+  next level's) or the next level's overhangs;
+* hence the product, read from that site, is `S·X·o5·t·o3·Y·S'·rest` with `o5·t ⊇` the whole insert, and
+  `C01.module_canonical` for the next level's geometry applies: if the product carries the next-level structure
+  exactly once and passes the screen (no further next-level site), the next-level class accepts it at every
+  rotation and its target contains every module target in chain order.
+The YTK entry vector / YTK product pair has another shape (the next level's sites sit inside the *module's*
+target): decided by the oracle and the correspondence check only.
+-/
+namespace Moclo.C11
+open Moclo
+
+theorem kit_vectors_next_level : Generated.nextLevelPairs.all (fun ij =>
+    match Generated.kits[ij.1]?, Generated.kits[ij.2]? with
+    | some v, some m => nextLevelOK (Tables.KitRow.geom m) v.k v.pat && (m.pat == moduleStructure (Tables.KitRow.geom m))
+    | _, _ => false) = true := Tables.kits_nextLevel
+
+theorem plain_of_matches_N {A : Word} {r : Nat} (h : matchesAt (List.replicate r .N) A) (hl : A.length = r) :
+    C01.Plain A := by
+  intro x hx
+  obtain ⟨j, hj, rfl⟩ := List.getElem_of_mem hx
+  have := h.2 j (by simp; omega) hj
+  simpa using this
+
+theorem matches3 {A B C : List Nt} {l : Word} (h : matchesAt (A ++ B ++ C) l)
+    (hl : l.length = A.length + B.length + C.length) :
+    ∃ x y z, l = x ++ y ++ z ∧ x.length = A.length ∧ y.length = B.length ∧ z.length = C.length ∧
+      matchesAt A x ∧ matchesAt B y ∧ matchesAt C z := by
+  refine ⟨l.take A.length, (l.drop A.length).take B.length, l.drop (A.length + B.length), ?_, ?_, ?_, ?_, ?_, ?_, ?_⟩
+  · rw [List.append_assoc, ← List.drop_drop, List.take_append_drop, List.take_append_drop]
+  · simp only [List.length_take]; omega
+  · simp only [List.length_take, List.length_drop]; omega
+  · simp only [List.length_drop]; omega
+  · exact (matchesAt_take _ _ _ (Nat.le_refl _)).mpr (matchesAt_append_left (matchesAt_append_left h))
+  · have := matchesAt_append_right (matchesAt_append_left h)
+    exact (matchesAt_take _ _ _ (Nat.le_refl _)).mpr this
+  · have := matchesAt_append_right h
+    rw [List.length_append] at this; exact this
+
+/-- **what a vector with the next-level layout keeps around its insertion point**: in any fit of such a
+structure on a window `text`, with `a1` the start of group 1 and `b2 + k` the end of group 3, the letters
+before group 1 are `S·X·OV` and the letters after group 3 (up to the end `e` of the match) are `OV'·Y·S'`, with
+`S` recognised as the next-level site, `S'` as its reverse complement, `|X| = |Y| = off'`, all of `X OV OV' Y`
+wildcard-compatible, and `OV`, `OV'` either both empty (and `k = k'`) or both of length `k'` -/
+theorem vector_flanks {g' : Geom} {k : Nat} {p : Pat} {text : Word} {ms : List Nat} {e : Nat}
+    (hok : nextLevelOK g' k p = true) (h : Run p text 0 ms e) :
+    ∃ a1 b2 S X OV OV' Y S',
+      ms = [a1, a1 + k, a1 + k, b2, b2, b2 + k] ∧ a1 + k ≤ b2 ∧ b2 + k ≤ e ∧
+      text.take a1 = S ++ X ++ OV ∧ (text.drop (b2 + k)).take (e - (b2 + k)) = OV' ++ Y ++ S' ∧
+      matchesAt g'.site S ∧ S.length = g'.site.length ∧ matchesAt (rcNt g'.site) S' ∧ S'.length = g'.site.length ∧
+      X.length = g'.off ∧ Y.length = g'.off ∧ C01.Plain (X ++ OV) ∧ C01.Plain (OV' ++ Y) ∧
+      ((OV = [] ∧ OV' = [] ∧ k = g'.k) ∨ (OV.length = g'.k ∧ OV'.length = g'.k)) := by
+  unfold nextLevelOK at hok
+  cases hs : splitGroups p with
+  | none => rw [hs] at hok; simp at hok
+  | some t =>
+    obtain ⟨pre, g1, g2, g3, suf⟩ := t
+    rw [hs] at hok
+    simp only [Bool.and_eq_true, Bool.or_eq_true, beq_iff_eq] at hok
+    obtain ⟨⟨hg1, hg3⟩, hshape⟩ := hok
+    obtain ⟨hp, mpre, _, mg2, _, msuf⟩ := splitGroups_sound hs
+    rw [hp] at h
+    subst hg1 hg3
+    obtain ⟨a1, b2, hms, hle1, hle2, rpre, _, _, _, rsuf⟩ :=
+      threeGroup_run (k := k) mpre mg2 msuf (isFixed_nRun' k) (isFixed_nRun' k) h
+    -- both shapes at once: `xo` next-level overhang letters outside the groups (0 or k')
+    obtain ⟨xo, hpre, hsuf, hxo⟩ : ∃ xo, pre = lits g'.site ++ nRun g'.off ++ nRun xo ∧
+        suf = nRun xo ++ nRun g'.off ++ lits (rcNt g'.site) ∧ ((xo = 0 ∧ k = g'.k) ∨ xo = g'.k) := by
+      rcases hshape with ⟨⟨a, b⟩, c⟩ | ⟨a, b⟩
+      · exact ⟨0, by simpa [nRun] using a, by simpa [nRun] using b, Or.inl ⟨rfl, c⟩⟩
+      · exact ⟨g'.k, a, b, Or.inr rfl⟩
+    subst hpre hsuf
+    have hrl : (rcNt g'.site).length = g'.site.length := by simp [rcNt]
+    have sfp : starFree (lits g'.site ++ nRun g'.off ++ nRun xo) = true := by
+      simp [starFree_append, starFree_lits, starFree_nRun]
+    have sfs : starFree (nRun xo ++ nRun g'.off ++ lits (rcNt g'.site)) = true := by
+      simp [starFree_append, starFree_lits, starFree_nRun]
+    obtain ⟨ea, hma⟩ := rpre.fixed sfp
+    obtain ⟨ee, hme⟩ := rsuf.fixed sfs
+    simp only [width_append, width_lits, width_nRun, Nat.zero_add, hrl] at ea ee
+    simp only [letters_append, letters_lits, letters_nRun] at hma hme
+    have hbp := rpre.bounds.2.1
+    have hbs := rsuf.bounds.2.1
+    simp only [List.length_drop] at hbs
+    -- the letters before group 1
+    have hpt : matchesAt (g'.site ++ List.replicate g'.off .N ++ List.replicate xo .N) (text.take a1) := by
+      rw [ea]; exact (matchesAt_take _ _ _ (by simp; omega)).mpr hma
+    obtain ⟨S, X, OV, e1, l1, l2, l3, m1, m2, m3⟩ := matches3 hpt (by simp [List.length_take]; omega)
+    -- the letters after group 3
+    have hst : matchesAt (List.replicate xo .N ++ List.replicate g'.off .N ++ rcNt g'.site)
+        ((text.drop (b2 + k)).take (e - (b2 + k))) := by
+      have : e - (b2 + k) = xo + g'.off + g'.site.length := by omega
+      rw [this]; exact (matchesAt_take _ _ _ (by simp [hrl])).mpr hme
+    obtain ⟨OV', Y, S', e2, k1, k2, k3, n1, n2, n3⟩ := matches3 hst (by
+      simp only [List.length_take, List.length_drop, List.length_replicate, hrl]; omega)
+    simp only [List.length_replicate] at l2 l3 k1 k2
+    refine ⟨a1, b2, S, X, OV, OV', Y, S', hms, hle1, hle2, e1, e2, m1, l1, n3, by rw [k3, hrl], l2, k2, ?_, ?_, ?_⟩
+    · intro z hz
+      rcases List.mem_append.mp hz with hz | hz
+      · exact plain_of_matches_N m2 l2 z hz
+      · exact plain_of_matches_N m3 l3 z hz
+    · intro z hz
+      rcases List.mem_append.mp hz with hz | hz
+      · exact plain_of_matches_N n1 k1 z hz
+      · exact plain_of_matches_N n2 k2 z hz
+    · rcases hxo with ⟨rfl, hk⟩ | rfl
+      · exact Or.inl ⟨List.length_eq_zero_iff.mp l3, List.length_eq_zero_iff.mp k1, hk⟩
+      · exact Or.inr ⟨l3, k1⟩
+
+/-- **the product is a well-formed next-level module**: reading the product from the next-level site, it is
+`S·X·o5·t·o3·Y·S'·rest` with `o5·t` containing the whole insert (first overhang `O1`, then every module target
+body in chain order, `body`), for either layout; `C01.module_canonical` for the next level's geometry then
+gives acceptance, overhangs and target at every rotation -/
+theorem product_shape {g' : Geom} {k : Nat} {OV OV' : Word} (O1 body O3 : Word)
+    (hO1 : O1.length = k) (hO3 : O3.length = k)
+    (hov : (OV = [] ∧ OV' = [] ∧ k = g'.k) ∨ (OV.length = g'.k ∧ OV'.length = g'.k)) :
+    ∃ o5 t o3, OV ++ O1 ++ body ++ O3 ++ OV' = o5 ++ t ++ o3 ∧ o5.length = g'.k ∧ o3.length = g'.k ∧
+      ∃ u v, o5 ++ t = u ++ (O1 ++ body) ++ v := by
+  rcases hov with ⟨rfl, rfl, hk⟩ | ⟨h1, h2⟩
+  · exact ⟨O1, body, O3, by simp, by omega, by omega, [], [], by simp⟩
+  · exact ⟨OV, O1 ++ body ++ O3, OV', by simp [List.append_assoc], h1, h2, OV, O3, by simp [List.append_assoc]⟩
+
+end Moclo.C11
